@@ -291,7 +291,7 @@ pub fn run_diff(case: &DiffCase, st: &mut Stats) -> CaseResult {
         match (sa, sl) {
             (Some(x), Some(y)) => {
                 // neither cache may change a result: the builder whose apply table remembers nothing is the reference
-                if let Some(w) = sz {
+                if let Some(w) = &sz {
                     let pz = rz.pool[w.idx].0;
                     for (which, p) in [("cache-everything", ra.pool[x.idx].0), ("lossy", rl.pool[y.idx].0)] {
                         ensure!(
@@ -305,6 +305,28 @@ pub fn run_diff(case: &DiffCase, st: &mut Stats) -> CaseResult {
                             bdd_tt(pz)
                         );
                     }
+                }
+                // every result of a sibling operation (not only the one that joins the pool), same rule
+                if matches!(op, BOp::Siblings(..)) && sz.is_some() {
+                    for (k, (what, pz, _)) in rz.last_siblings.iter().enumerate() {
+                        for (which, lst) in [("cache-everything", &ra.last_siblings), ("lossy", &rl.last_siblings)] {
+                            if let Some((_, p, _)) = lst.get(k) {
+                                ensure!(
+                                    bdd_tt(*p) == bdd_tt(*pz) && bdd_iso(*p, *pz),
+                                    "C16/cache-changes-a-result:siblings",
+                                    "op #{} {:?}: {} (call {} on one (f, v, g)): the builder with the {} apply table returned a diagram denoting {:?}, a builder that caches nothing {:?}",
+                                    i,
+                                    op,
+                                    what,
+                                    k + 1,
+                                    which,
+                                    bdd_tt(*p),
+                                    bdd_tt(*pz)
+                                );
+                            }
+                        }
+                    }
+                    st.bump("bdd.sibling_operations_compared");
                 }
                 let (pa, ta) = ra.pool[x.idx];
                 let (pl, tl) = rl.pool[y.idx];
@@ -415,12 +437,17 @@ pub fn run_sdd_caches(case: &SddCacheCase, st: &mut Stats) -> CaseResult {
     let gap = 1 + (case.gap % 4) as usize;
     let mut steps: Vec<(usize, Vec<usize>, SOp)> = Vec::new(); // (pool idx, args, op)
     let mut repeats = 0u64;
+    // results of the sibling operations issued together on one (f, v, g): pool idx of the op -> every result in order
+    let mut warm_siblings: std::collections::BTreeMap<usize, Vec<(&'static str, SddPtr, Tt)>> = std::collections::BTreeMap::new();
     for (i, op) in case.ops.iter().enumerate() {
         if let Some(out) = run.step(op) {
             steps.push((out.idx, out.args.clone(), op.clone()));
             let (p, t) = run.pool[out.idx];
             if sdd_tt(p) != t {
                 st.bump("result_differs_from_oracle_function(C03's concern)");
+            }
+            if matches!(op, SOp::Siblings(..)) {
+                warm_siblings.insert(out.idx, run.last_siblings.clone());
             }
         }
         if i >= gap {
@@ -431,7 +458,7 @@ pub fn run_sdd_caches(case: &SddCacheCase, st: &mut Stats) -> CaseResult {
             };
             // re-running an op means: same arguments (by pool index) -> must give the pointer recorded at idx
             let saved_len = run.pool.len();
-            let mut prefix = SddRun { b: &b, pool: run.pool[..idx].to_vec(), labels: run.labels.clone(), forced_operands: None, emb: run.emb };
+            let mut prefix = SddRun { b: &b, pool: run.pool[..idx].to_vec(), labels: run.labels.clone(), forced_operands: None, emb: run.emb, sibling_fault: None, last_siblings: Vec::new(), siblings_only: None };
             if matches!(old, SOp::AndDisjoint(..) | SOp::OrDisjoint(..) | SOp::AndDisjointNeg(..) | SOp::OrDisjointNeg(..)) && old_args.len() == 2 {
                 prefix.forced_operands = Some((old_args[0], old_args[1]));
             }
@@ -500,6 +527,52 @@ pub fn run_sdd_caches(case: &SddCacheCase, st: &mut Stats) -> CaseResult {
             sdd_tt(warm)
         );
     }
+    // sibling operations (ite, compose, condition, exists, iff, xor, and, or on one (f, v, g), issued one after another in
+    // the long-lived builder): each of their results once more alone, in a fresh builder that replays the dependency
+    // cone and computes only that one sibling; a cache entry that one operation leaves for another shows here
+    for (target, warm) in warm_siblings.iter().take(3) {
+        let mut cone: BTreeSet<usize> = BTreeSet::new();
+        let mut stack = vec![*target];
+        while let Some(x) = stack.pop() {
+            if x < base || !cone.insert(x) {
+                continue;
+            }
+            if let Some((_, args, _)) = steps.iter().find(|(idx, _, _)| *idx == x) {
+                stack.extend(args.iter().copied());
+            }
+        }
+        for (j, (what, wp, _)) in warm.iter().enumerate() {
+            let fb = make_builder(&case.vt, true, case.table_cap);
+            let mut fr = SddRun::new(&fb, shape.leaves());
+            for (idx, rec_args, op) in steps.iter() {
+                if *idx > *target {
+                    break;
+                }
+                if cone.contains(idx) {
+                    if matches!(op, SOp::AndDisjoint(..) | SOp::OrDisjoint(..) | SOp::AndDisjointNeg(..) | SOp::OrDisjointNeg(..)) && rec_args.len() == 2 {
+                        fr.forced_operands = Some((rec_args[0], rec_args[1]));
+                    }
+                    fr.siblings_only = if idx == target { Some(j) } else { None };
+                    let _ = fr.step(op);
+                } else {
+                    fr.pool.push((SddPtr::PtrTrue, Tt::TRUE));
+                }
+            }
+            let cold = fr.pool[*target].0;
+            colds += 1;
+            ensure!(
+                sdd_iso(cold, *wp),
+                "C16/sdd-cold-recomputation-differs",
+                "{} issued as call {} of {:?} on one (f, v, g) in the long-lived builder is not isomorphic to the same operation computed alone in a fresh builder (functions {:?} vs {:?})",
+                what,
+                j + 1,
+                warm.iter().map(|x| x.0).collect::<Vec<_>>(),
+                sdd_tt(*wp),
+                sdd_tt(cold)
+            );
+            st.bump("sdd.sibling_results_recomputed_alone");
+        }
+    }
     st.add("sdd.repeats", repeats);
     st.add("sdd.cold_recomputations", colds);
     if repeats >= 3 && colds >= 1 {
@@ -564,7 +637,7 @@ pub fn run_semantic_cache(case: &SddCacheCase, st: &mut Stats) -> CaseResult {
                 Some(s) => s.clone(),
                 None => continue,
             };
-            let mut prefix = SddRun { b: &b, pool: run.pool[..idx].to_vec(), labels: run.labels.clone(), forced_operands: None, emb: run.emb };
+            let mut prefix = SddRun { b: &b, pool: run.pool[..idx].to_vec(), labels: run.labels.clone(), forced_operands: None, emb: run.emb, sibling_fault: None, last_siblings: Vec::new(), siblings_only: None };
             if matches!(old, SOp::AndDisjoint(..) | SOp::OrDisjoint(..) | SOp::AndDisjointNeg(..) | SOp::OrDisjointNeg(..)) && old_args.len() == 2 {
                 prefix.forced_operands = Some((old_args[0], old_args[1]));
             }
